@@ -159,7 +159,7 @@ SS_CALLEE = CalleeSpec(['arr', 'v'], requires=[], ensures=['result == SEARCHSORT
 def spec_searchsorted():
     return FnSpec(FILE, '_searchsorted_parallel', prop='C12', name='_searchsorted_parallel',
                   args=dict(a='int[:]!ro', b='int[:]!ro'), ghosts=ghosts, callees={'numpy.searchsorted': SS_CALLEE},
-                  requires=['forall(q, 0, len(a) - 1, a[q] < a[q + 1])'],          # sorted, duplicate-free ids
+                  requires=['forall((p, q), 0 <= p and p < q and q < len(a), a[p] < a[q])'],          # sorted, duplicate-free ids (global form: no induction needed)
                   ensures=['len(result) == len(b)', 'forall(q, 0, len(b), result[q] == SEARCHSORTED(b[q]))',
                            # each particle's host index points to the halo whose id the particle records (when present)
                            'forall(q, 0, len(b), implies(exists(h, 0, len(a), a[h] == b[q]), 0 <= result[q] and result[q] < len(a) and a[result[q]] == b[q]))'],
